@@ -444,7 +444,7 @@ func nativeReplay(path string) (bool, string) {
 	ovf.Close()
 	dir := pkgDirs[rp.Pkg]
 	abs, _ := filepath.Abs(path)
-	cmd := exec.Command("go", "test", "-tags", "verif", "-vet=off", "-count=1", "-overlay", ovf.Name(), "-run", "^TestVFReplay$", "-timeout", "120s", "./"+dir)
+	cmd := exec.Command("go", "test", "-tags", "verif", "-vet=off", "-count=1", "-v", "-overlay", ovf.Name(), "-run", "^TestVFReplay$", "-timeout", "120s", "./"+dir)
 	cmd.Dir = repoDir
 	cmd.Env = append(os.Environ(), "GOFLAGS=-mod=mod", "GOPROXY=off", "GOSUMDB=off", "GOTOOLCHAIN=local", "VF_REPLAY="+abs)
 	outb, _ := cmd.CombinedOutput()
